@@ -112,7 +112,15 @@ pub enum Step {
     SessAct { r: usize, s: usize, cmds: Vec<ActCmd>, fail_at: Option<usize> },
     SessRecv { r: usize, s: usize, from_r: usize, from_s: usize, m: usize, garble: Option<u32> },
     SessClose { r: usize, s: usize },
-    CacheAdd { r: usize, peer: usize, sel: Sel, bogus: u8 },
+    CacheAdd {
+        r: usize,
+        peer: usize,
+        sel: Sel,
+        bogus: u8,
+        /// File-backed replicas: fail the n-th read system call of the cache update with EIO.
+        #[serde(default)]
+        read_fault: Option<u32>,
+    },
     Crash {
         r: usize,
         at: u32,
@@ -248,6 +256,8 @@ pub struct Sim {
     pub disk: Vec<crate::simfs::DiskShadow>,
     /// Print every event-log line (debugging only; never influences behaviour).
     pub trace: bool,
+    /// Read fault to inject into the next peer-cache update (consumed by `cache_add_one`).
+    pub pending_read_fault: Option<u32>,
     /// Traversal-queue refinement monitor (C21).
     pub qmon: crate::qmon::SharedQMon,
 }
@@ -334,6 +344,7 @@ impl Sim {
             fs,
             disk: vec![crate::simfs::DiskShadow::default(); n],
             trace: std::env::var_os("DAGSIM_TRACE").is_some(),
+            pending_read_fault: None,
             qmon: crate::qmon::QMon::install(),
         }
     }
